@@ -112,6 +112,8 @@ impl Sim {
 
     pub fn send_next(&mut self, rec: &mut Rec, rng: &mut Rng, i: usize) {
         if self.w.clients[i].sock.is_none() || self.w.clients[i].wr_shut {
+            // nothing can be sent any more: drop what was planned so that callers' send loops end
+            self.plans[i].outq.clear();
             return;
         }
         if self.plans[i].outq.is_empty() {
@@ -409,19 +411,46 @@ pub fn c07(rec: &mut Rec, rng: &mut Rng, thorough: bool) {
         cfg.reconnect = true;
         cfg.max_clients = rng.range(2, 4);
         let mut sim = run_history(rec, rng, cfg, "routing");
-        // aimed: close a client that has requests in flight, connect a new one (descriptor reuse), answer late
+        // aimed: a client with requests in flight goes away (plainly, after garbage, after a shutdown),
+        // a new one connects (descriptor reuse), the application answers late
         if k % 2 == 0 && sim.w.server.is_some() {
-            let live: Vec<usize> = (0..sim.w.clients.len()).filter(|&i| sim.w.clients[i].sock.is_some() && sim.w.clients[i].accepted).collect();
+            let live: Vec<usize> = (0..sim.w.clients.len()).filter(|&i| sim.w.clients[i].sock.is_some() && sim.w.clients[i].accepted && !sim.plans[i].sent_garbage).collect();
             if let Some(&i) = live.first() {
                 sim.send_next(rec, rng, i);
-                sim.send_next(rec, rng, i);
-                sim.poll(rec);
+                while !sim.plans[i].outq.is_empty() {
+                    sim.send_next(rec, rng, i);
+                }
+                for _ in 0..3 {
+                    sim.poll(rec);
+                }
+                match (k / 2) % 4 {
+                    1 => {
+                        sim.send_garbage(rec, rng, i);
+                        sim.poll(rec);
+                        sim.poll(rec);
+                        sim.w.client_read(rec, i);
+                    }
+                    2 => sim.w.shutdown(rec, i, Shutdown::Write),
+                    3 => {
+                        sim.send_garbage(rec, rng, i);
+                    }
+                    _ => {}
+                }
                 sim.w.close(rec, i);
+                sim.poll(rec);
                 sim.poll(rec);
                 let j = sim.connect(rec);
                 sim.poll(rec);
                 sim.send_next(rec, rng, j);
                 sim.poll(rec);
+                // the late answers to the departed client's requests
+                while let Some(idx) = sim.w.held.iter().position(|h| h.tag.starts_with(&format!("/c{}/", i))) {
+                    sim.respond(rec, rng, idx);
+                }
+                for _ in 0..3 {
+                    sim.poll(rec);
+                }
+                sim.w.client_read(rec, j);
                 rec.nontrivial();
             }
         }
